@@ -32,6 +32,8 @@ Core-only executable model. It mirrors the code that exists (oddities included):
   is written to the client whatever its RequestId; an InitResult only when its RequestId is the link's `initCommand`'s,
   with `InitType := (InitType & 1) | 2 | GetInitCommandState()`; text — only a LockResult whose RequestId is
   `lockRequestId`; a result whose RequestId is the latest one clears `latestCommandType`.
+* a frame the reader goroutine of a freshly opened link reads before `CheckClient` has attached the link object to its
+  connection is dropped unseen (`Event.unattached`: in practice the answer to the INIT that `Open` re-sends).
 * link loss (`rollbackLatestCommand`): a RESULT_ERROR result is fabricated for the LATEST in-flight command only (a
   `LockResultCommand` with every other field zero for LOCK / UNLOCK / INIT, a `CallResultCommand` for CALL) and pushed
   through the same relay function; earlier in-flight commands get nothing. The link object then reconnects on its own
@@ -512,6 +514,10 @@ inductive Event where
   | accept (k : Kind)
   | request (c : Nat) (short : Bool) (q : Req)    -- short: the whole command arrived in the connection's first 64-byte read
   | leaderMsg (c : Nat) (m : LeaderMsg) (early : Bool)
+  /-- a frame was read from the freshly opened link of `c` BEFORE `CheckClient` had attached the link object to the
+  connection (`clientProtocol.serverProtocol = self` comes after `OpenClient` has started the reader goroutine): the reader
+  sees `serverProtocol == nil` and drops the frame without looking at it -/
+  | unattached (c : Nat)
   | linkDown (c : Nat)
   | role (r : Role)
   | leader (a : Addr)
@@ -522,6 +528,7 @@ def step (s : Node) : Event → Node × Out
   | .accept k => ({ s with conns := s.conns ++ [{ kind := k }] }, { tag := .ok })
   | .request c short q => stepRequest s c short q
   | .leaderMsg c m early => stepLeaderMsg s c m early
+  | .unattached _ => (s, { tag := .dropped })
   | .linkDown c => stepLinkDown s c
   | .role r => ({ s with role := r }, { tag := .ok })
   | .leader a => stepLeader s a
